@@ -9,7 +9,7 @@
    (x, x' range over ALL functions nat -> nat -> Z, not only over matrices). *)
 From Coq Require Import List ZArith Lia Bool.
 Import ListNotations.
-Require Import CV.LpCert CV.Ssp CV.SspProofs CV.SspSafety CV.SspF CV.SspTree CV.SspOpt CV.SspTotal CV.SspFuelCex.
+Require Import CV.LpCert CV.Ssp CV.SspProofs CV.SspSafety CV.SspF CV.SspTree CV.SspOpt CV.SspTotal CV.SspFuelCex CV.SspFuelMono.
 Local Open Scope Z_scope.
 
 (* [F] Soundness of the LP certificate checker, for all problems, plans and potentials: whenever the
@@ -142,8 +142,20 @@ Theorem c13_sspF_outcomes :
   end.
 Proof. exact sspF_spec. Qed.
 
+(* [F] the plan does not depend on the round budget of updateTree (all problems, no hypothesis): a plan returned
+   with some budget is returned with every larger budget, so two budgets never give two different plans.  With
+   c13_sspF_total: whenever ssp (= sspF tree_fuel) returns a plan on C13's domain, it is THE plan of the terminating
+   run -- the budget can only turn the answer into Fail (EFuel 483), never change it. *)
+Theorem c13_sspF_budget_monotone :
+  forall tf tf' pb x, (forall n, (tf n <= tf' n)%positive) -> sspF tf pb = Ok x -> sspF tf' pb = Ok x.
+Proof. exact sspF_budget_monotone. Qed.
+
+Theorem c13_sspF_budget_independent :
+  forall tf1 tf2 pb x1 x2, sspF tf1 pb = Ok x1 -> sspF tf2 pb = Ok x2 -> x1 = x2.
+Proof. exact sspF_fuel_indep. Qed.
+
 (* [F] (witness) the budget n^3 + 2n + 1 of Ssp.v is NOT sufficient: a problem of C13's domain with 12 sinks and 11
-   sources on which the line-by-line model ssp stops in updateTree's loop (2049 rounds needed, 1753 allowed), while
+   sources on which the line-by-line model ssp stops in updateTree's loop (exactly 2049 rounds needed, 1753 allowed), while
    with the proved budget the same definitions return the (optimal, c13_sspF_total) plan "source i -> sink 11 - i".
    So "forall pb in the domain, exists x, ssp pb = Ok x" is FALSE for Ssp.v as it stands -- a limitation of the
    model's constant, not of the C++: the real code returns this plan (replayed through harness/transp.cpp, cost 23628 =
@@ -153,7 +165,10 @@ Theorem c13_tree_fuel_insufficient :
   total_demand cex_pb <= total_capacity cex_pb /\
   ssp cex_pb = Fail (EFuel 483) /\
   sspF big_fuel cex_pb =
-    Ok (map (fun j => map (fun i => if (j + i =? 11)%nat then 1 else 0) (seq 0 11)) (seq 0 12)).
+    Ok (map (fun j => map (fun i => if (j + i =? 11)%nat then 1 else 0) (seq 0 11)) (seq 0 12)) /\
+  tree_fuel (nsnk cex_pb) = 1753%positive /\
+  sspF (fun _ => 2048%positive) cex_pb = Fail (EFuel 483) /\
+  sspF (fun _ => 2049%positive) cex_pb = sspF big_fuel cex_pb.
 Proof. exact tree_fuel_insufficient. Qed.
 
 (* [B] Bounded theorem: on each of the explicit finite domains below -- exactly ns sinks and nr
@@ -292,3 +307,5 @@ Print Assumptions c13_ssp_is_sspF.
 Print Assumptions c13_sspF_total.
 Print Assumptions c13_sspF_outcomes.
 Print Assumptions c13_tree_fuel_insufficient.
+Print Assumptions c13_sspF_budget_monotone.
+Print Assumptions c13_sspF_budget_independent.
